@@ -1,4 +1,5 @@
 import Grass.Proto
+import Grass.Generated.ModuleAliases
 /-
   C12 core — the module system: `@use`, `@forward`, member views, configuration, loader.
 
@@ -148,11 +149,15 @@ def limitBy (vis : Vis) (k : Kind) (v1 : View) : View :=
   | none, some b => if b.isEmpty then v1 else View.blocklist v1 b
   | none, none => v1
 
+/-- the `PrefixedMapView` part of `forwarded_map` (mod.rs:168) -/
+def prefixBy (keysBug : Bool) (pfx : Option Ident) (v : View) : View :=
+  match pfx with
+  | some p => View.prefixed keysBug v p
+  | none => v
+
 /-- `ForwardedModule::forwarded_map` (mod.rs:156). -/
 def forwardedMap (sw : Switches) (k : Kind) (r : FwdRule) (v : View) : View :=
-  let v1 := match r.pfx with
-    | some p => View.prefixed sw.prefixedKeysBug v p
-    | none => v
+  let v1 := prefixBy sw.prefixedKeysBug r.pfx v
   if sw.ignoreLists then v1 else limitBy r.vis k v1
 
 structure Fwd where
@@ -485,6 +490,16 @@ def addForwardCfg (adj : Cfg) (cfg : List (Ident × Val × Bool)) : Cfg × Cfg :
   -- explicit iff the incoming configuration is explicit or (now, after the guarded removals) empty
   (r.1, { base := r.2, layers := [], explicit := r.1.explicit || r.1.isEmpty })
 
+/-- `add_module` (env.rs:430): a namespace must be new; `as *` must not clash with a variable this
+    module has already declared. -/
+def addModule (sw : Switches) (env : Env) (ns : UseNs) (dflt : Ident) (id : Nat) (ms : List Mod) : Except Err Env :=
+  match ns with
+  | .star =>
+    if env.vars.any (fun e => ((scopeView sw .var ms id).get e.1).isSome) then .error .starConflict
+    else .ok { env with globals := env.globals ++ [id] }
+  | .named n => if env.nss.any (·.1 == n) then .error .nsExists else .ok { env with nss := env.nss ++ [(n, id)] }
+  | .dflt => if env.nss.any (·.1 == dflt) then .error .nsExists else .ok { env with nss := env.nss ++ [(dflt, id)] }
+
 def step (sw : Switches) (loadF : LoadF) (s : Stmt) (env : Env) (cfg : Cfg) (st : St) : Out (Env × Cfg) :=
   match s with
   | .var n v guarded =>
@@ -505,13 +520,7 @@ def step (sw : Switches) (loadF : LoadF) (s : Stmt) (env : Env) (cfg : Cfg) (st 
     match o.res with
     | .error e => ⟨o.st, .error e⟩
     | .ok (id, c1) =>
-      -- `add_module` (env.rs:430)
-      let added : Except Err Env := match ns with
-        | .star =>
-          if env.vars.any (fun e => ((scopeView sw .var o.st.mods id).get e.1).isSome) then .error .starConflict
-          else .ok { env with globals := env.globals ++ [id] }
-        | .named n => if env.nss.any (·.1 == n) then .error .nsExists else .ok { env with nss := env.nss ++ [(n, id)] }
-        | .dflt => if env.nss.any (·.1 == url.base) then .error .nsExists else .ok { env with nss := env.nss ++ [(url.base, id)] }
+      let added := addModule sw env ns url.base id o.st.mods
       match added with
       | .error e => ⟨o.st, .error e⟩
       | .ok env' => if c1.leftover then ⟨o.st, .error .withNotDefault⟩ else ⟨o.st, .ok (env', cfg)⟩
@@ -620,13 +629,15 @@ def dbgOf (t : List Event) : List Ident := t.filterMap fun e => match e with | .
 /-- what a `@forward` rule lets through for one kind: the forwarded (prefixed) name is allowed -/
 def FwdRule.allows (r : FwdRule) (k : Kind) (n : Ident) : Bool := visAllows r.vis k n
 
+/-- a name seen through `as p*`: it must start with the prefix, the rest names the upstream member -/
+def stripPfx (pfx : Option Ident) (up : Ident → Option Origin) (n : Ident) : Option Origin :=
+  match pfx with
+  | some p => if p.isPrefixOf n then up (n.drop p.length) else none
+  | none => up n
+
 /-- `prefix ∘ filter(show/hide)` of an upstream `get` — the specification of a forward view -/
 def fwdSpecGet (r : FwdRule) (k : Kind) (up : Ident → Option Origin) (n : Ident) : Option Origin :=
-  if r.allows k n then
-    match r.pfx with
-    | some p => if p.isPrefixOf n then up (n.drop p.length) else none
-    | none => up n
-  else none
+  if r.allows k n then stripPfx r.pfx up n else none
 
 /-- The specification of what module `id` exposes, written without views: its own public members,
     else the last `@forward` whose prefix and show/hide lists let the name through, applied to what
@@ -646,6 +657,22 @@ def nCss (ss : List Stmt) : Nat := (ss.filter fun s => s == Stmt.css).length
 /-- what the generator promises: distinct module names, at most one CSS marker per module -/
 def Project.wf (p : Project) : Bool :=
   decide (p.map (·.name)).Nodup && p.all fun m => decide (nCss m.body ≤ 1)
+
+/-! ### built-in modules and their global aliases (tables generated from builtin/modules/*.rs and
+    builtin/functions/**.rs by tools/translate_module_aliases.py) -/
+
+/-- the Rust fn behind `module.member` -/
+def moduleImpl (m f : String) : Option String :=
+  (Grass.Generated.moduleTable.find? fun e => e.1 == m && e.2.1 == f).map (·.2.2)
+
+/-- the Rust fn behind the global function `g` -/
+def globalImpl (g : String) : Option String := Grass.Generated.globalTable.lookup g
+
+/-- the global names that run the same Rust fn as `module.member` -/
+def builtinAliases (m f : String) : List String :=
+  match moduleImpl m f with
+  | none => []
+  | some impl => (Grass.Generated.globalTable.filter fun e => e.2 == impl).map (·.1)
 
 /-! ### driver -/
 
@@ -780,6 +807,10 @@ def handle : List String → String
       let r : FwdRule := ⟨if p == "-" then none else some p.toList, vis⟩
       "ok " ++ boolStr (r.allows k (rdId n) && (match r.pfx with | some p => p.isPrefixOf (rdId n) | none => true))
     | _, _ => "bad-op"
+  -- aliases: every `module.member=global` pair of the generated tables
+  | ["aliases"] =>
+    "ok " ++ " ".intercalate (Grass.Generated.moduleTable.flatMap fun e =>
+      (builtinAliases e.1 e.2.1).map fun g => s!"{e.1}.{e.2.1}={g}")
   | _ => "bad-op"
 
 end Grass.Module
